@@ -8,6 +8,7 @@ import (
 	"os"
 	"path/filepath"
 	"strings"
+	"sync"
 	"time"
 
 	"verif/atlasfake"
@@ -98,7 +99,9 @@ func C20() int {
 		supply string
 		ki, pi int
 		lib    bool
+		odd    int // > 0: project / cluster names that do not fit into a URL as they are
 	}
+	oddNames := [][2]string{{"", ""}, {"5f0000000000000000c20c20", "prod%zz"}, {"5f0000000000000000c20c20", "Cluster\r"}, {"proj ect", "Cluster C20"}, {"5f00%00", "C\x7f20"}, {"5f0000000000000000c20c20", "a/../b?x=1#f"}, {"\x00p", "Clu\nster"}}
 	var jobs []job
 	for bi, b := range c20Behaviours {
 		for si, sup := range c20Supplies {
@@ -106,23 +109,58 @@ func C20() int {
 				if false {
 					continue // quick: every behaviour × supply × key cell still appears once over two seeds' parity; all behaviours × supplies covered
 				}
-				jobs = append(jobs, job{b, sup, ki, (bi + si + ki) % len(c20Pubs), false})
+				jobs = append(jobs, job{b, sup, ki, (bi + si + ki) % len(c20Pubs), false, 0})
 			}
 		}
 		for ki := range c20Keys {
-			jobs = append(jobs, job{b, "library", ki, ki % len(c20Pubs), true})
+			jobs = append(jobs, job{b, "library", ki, ki % len(c20Pubs), true, 0})
+		}
+	}
+	// names that cannot be put into a request URL as they are: whatever the tool does with them
+	// (escape them, refuse them), the message must not carry the key
+	for oi := 1; oi < len(oddNames); oi++ {
+		for si, sup := range c20Supplies {
+			jobs = append(jobs, job{c20Behaviours[0], sup, (oi + si) % len(c20Keys), oi % len(c20Pubs), false, oi}, job{c20Behaviours[11], "library", (oi + si) % len(c20Keys), oi % len(c20Pubs), true, oi})
 		}
 	}
 	c.Set("runs", len(jobs))
-	const project, cluster, host = "5f0000000000000000c20c20", "ClusterC20", "c20-shard-00-00.abcde.mongodb.net"
+	const project0, cluster0, host = "5f0000000000000000c20c20", "ClusterC20", "c20-shard-00-00.abcde.mongodb.net"
 	parallelDo(len(jobs), func(ji int) {
 		jb := jobs[ji]
 		pub, priv := c20Pubs[jb.pi], c20Keys[jb.ki]
+		project, cluster := project0, cluster0
+		if jb.odd > 0 {
+			project, cluster = oddNames[jb.odd][0], oddNames[jb.odd][1]
+		}
+		needles := c20Needles(pub, priv)
+		var dirNow string // the CLI run's directory, searched while the client waits for an answer
+		var midMu sync.Mutex
+		midHits := map[string]string{}
 		pl := payloadGz
 		if jb.b.notGzip {
 			pl = []byte("plain text, not gzip\n")
 		}
-		cfg := atlasfake.Config{Project: project, Cluster: cluster, ConnStr: "mongodb://" + host + ":27017/?replicaSet=rs", Payload: map[string][]byte{host: pl}, Auth: jb.b.auth, ClusterFault: jb.b.cluster, EchoBody: true}
+		onReq := func(string) {
+			midMu.Lock()
+			defer midMu.Unlock()
+			if dirNow == "" {
+				return
+			}
+			filepath.WalkDir(dirNow, func(p string, d os.DirEntry, err error) error {
+				if err == nil && !d.IsDir() && filepath.Base(p) != "verif-ca.pem" {
+					if b, e := os.ReadFile(p); e == nil {
+						for needle, enc := range needles {
+							if bytes.Contains(b, []byte(needle)) {
+								rel, _ := filepath.Rel(dirNow, p)
+								midHits[rel] = enc
+							}
+						}
+					}
+				}
+				return nil
+			})
+		}
+		cfg := atlasfake.Config{OnRequest: onReq, Project: project0, Cluster: cluster0, ConnStr: "mongodb://" + host + ":27017/?replicaSet=rs", Payload: map[string][]byte{host: pl}, Auth: jb.b.auth, ClusterFault: jb.b.cluster, EchoBody: true}
 		if jb.b.hostFault.Kind != "" {
 			cfg.Faults = map[string]atlasfake.Fault{host: jb.b.hostFault}
 		}
@@ -133,7 +171,9 @@ func C20() int {
 		}
 		defer srv.Close()
 		label := fmt.Sprintf("%s / %s / key %d", jb.b.name, jb.supply, jb.ki)
-		needles := c20Needles(pub, priv)
+		if jb.odd > 0 {
+			label += fmt.Sprintf(" / names %q %q", project, cluster)
+		}
 		artefacts := map[string][]byte{}
 		var exit int
 		if jb.lib {
@@ -148,6 +188,9 @@ func C20() int {
 		} else {
 			dir := s.TempDir("c20")
 			defer os.RemoveAll(dir)
+			midMu.Lock()
+			dirNow = dir
+			midMu.Unlock()
 			outp := filepath.Join(dir, "out.log")
 			args := []string{"redact", "--atlasProjectId", project, "--atlasClusterName", cluster, "-o", outp}
 			env := atlasEnv(srv, dir)
@@ -188,10 +231,16 @@ func C20() int {
 		c.Count("requests_logged", len(log))
 		c.Eval(label)
 		rp := map[string]any{"kind": "atlas-key", "case": label, "server_behaviour": jb.b.name, "key_supply": jb.supply, "private_key": priv, "public_key": pub, "exit": exit, "requests": logURLs(log), "stderr": short(artefacts["stderr"], 400)}
-		if len(log) == 0 {
+		if len(log) == 0 && jb.odd == 0 {
 			c.Violation("no-request-recorded", label+": the run never reached the fake endpoint: "+short(artefacts["stderr"], 200), rp)
 			return
 		}
+		midMu.Lock()
+		for rel, enc := range midHits {
+			c.Violation("private-key-visible|file during the run|"+strings.Fields(enc)[0], fmt.Sprintf("%s: while the run was waiting for the endpoint's answer the private key (%s) was in the file %s", label, enc, rel), rp)
+		}
+		c.Count("mid_run_directory_scans", 1)
+		midMu.Unlock()
 		for where, data := range artefacts {
 			for needle, enc := range needles {
 				c.Count("needle_searches", 1)
